@@ -68,6 +68,8 @@ class Logger:
                 return D.interval(g * g, self.scale * self.scale, rel_ulps=16, mag=2 ** n * 4 * M * M, tight=True)
             return D.interval(g, self.scale, rel_ulps=4, mag=2 ** n * 2 * M, tight=True)
         q = D.quant_int(g, self.grid)
+        if abs(q) * factorial(n) * 4 >= D.LIMIT:
+            raise D.DriverError("gap too large for 32-bit arithmetic on the quant grid (heavy-tailed game): trace dropped")
         return [q, q]
 
     def obs_iv(self, obs, hidden):
@@ -354,7 +356,8 @@ def main():
         nact = 2 ** n - n - 2
         for i in range(a.count):
             tid += 1
-            gapname = gaps[i % len(gaps)]
+            # exact source: gap cycles with the trace index; family source: every (family, gap) pair is visited
+            gapname = gaps[i % len(gaps)] if (a.source == "exact" or not fams) else gaps[(i // len(fams)) % len(gaps)]
             budget = rng.choice([None, None, 0, 1, 2, nact]) if a.kind != "solve" else None
             linear = a.kind == "linear"
             solver_name = solvers[(i // len(gaps)) % len(solvers)] if a.kind == "solve" else ""
@@ -388,7 +391,7 @@ def main():
                 family = fams[i % len(fams)]
                 sam_family = family.startswith(("xos", "xs", "oxs", "k_budget", "covg"))
                 cands = [c for c in classes if (COMP_OF_CLASS[c][0] == "sam") <= sam_family]
-                cname = cands[(i // len(fams)) % len(cands)]
+                cname = cands[(i // (len(fams) * len(gaps))) % len(cands)] if a.count > len(fams) * len(gaps) else cands[rng.randrange(len(cands))]
                 comp, r = COMP_OF_CLASS[cname]
                 cls = "SAM" if sam_family else "SA"
                 mode = "quant"
